@@ -225,7 +225,7 @@ def check_property(pid: str, harnesses: list[Harness], tier: str, seed: int, job
     os.makedirs(os.path.join(REPLAY_DIR, pid), exist_ok=True)
     for hr in results:
         for c in hr.crashes:
-            harness_errors.append(f"{hr.name}: {str(c)[:1500]}")
+            harness_errors.append(f"{hr.name}: {str(c)[:600]}")
         if hr.evaluations == 0 and not hr.crashes:
             harness_errors.append(f"{hr.name}: no path reached the assertion (vacuous)")
         seen_keys = set()
@@ -252,8 +252,10 @@ def check_property(pid: str, harnesses: list[Harness], tier: str, seed: int, job
     for path, hname, key, msg in violations:
         print(f"VIOLATION property={pid} replay={path}")
         print(f"  harness={hname} key={key} {msg[:400]}")
-    for e in harness_errors:
+    for e in harness_errors[:6]:
         print(f"HARNESS-ERROR property={pid} {e}")
+    if len(harness_errors) > 6:
+        print(f"HARNESS-ERROR property={pid} ... and {len(harness_errors) - 6} more")
     write_evidence(pid, tier, seed, results, len(violations), known_hits, time.perf_counter() - t0, level, explanation,
                    harness_errors)
     for hr in results:
